@@ -1498,3 +1498,22 @@ package machine
 //@ func ParseArgs[G ArgsApi](args A) (r *G)
 //@   trusted type assertions on interface values are outside the subset; assumed: callers never store a typed nil pointer in A
 //@   ensures nn: r != nil
+
+// VerifyStates memorises the order of the state names. Lock discipline only
+// (C12): the public entry point takes schemaMx for reading.
+//@ func (m *Machine) VerifyStates(states S) (err error)
+//@   props C12
+//@   requires locks: unlocked(m.schemaMx) && unlocked(m.tracersMx)
+//@   requires nn: forall i int :: 0 <= i && i < len(m.tracers) ==> m.tracers[i] != nil
+//@   assigns *
+//@   ensures locks: unlocked(m.schemaMx) && unlocked(m.tracersMx)
+
+//@ func (m *Machine) verifyStates(states S) (err error)
+//@   props C12
+//@   requires held: locked(m.schemaMx)
+//@   requires locks: unlocked(m.tracersMx)
+//@   requires nn: forall i int :: 0 <= i && i < len(m.tracers) ==> m.tracers[i] != nil
+//@   assigns *
+//@   ensures locks: unlocked(m.tracersMx) && m.schemaMx == old(m.schemaMx)
+//@   loop 1 invariant true
+//@   loop 2 invariant locks: rlocked(m.tracersMx) && m.schemaMx == old(m.schemaMx) && 0 <= i && (forall k int :: 0 <= k && k < len(m.tracers) ==> m.tracers[k] != nil)
